@@ -193,7 +193,52 @@ Section History.
     rewrite E. clear. induction (ord _) as [|g gs IH]; cbn [first_consensus]; [discriminate|].
     destruct (consensus _ _); [discriminate|exact IH].
   Qed.
+  (** The end-blocker declares before it prunes: a request whose stored evidence has a key backed by two
+      thirds of the snapshot is declared by the end-block — at ANY height and age, also when pruning is
+      due in that very block — and not pruned.  Conversely a pruned request had no winner in that block. *)
+  Theorem end_block_declares_before_pruning : forall added (s : mod_state) sn ord ht e,
+    (forall gs, Permutation (ord gs) gs) ->
+    ms_pruned s = false -> as_won (ms_att s) = None ->
+    0 < sn_total sn /\ sn_total sn = zsum (map snd (sn_vals sn)) /\ Forall (fun p => 0 <= snd p) (sn_vals sn) ->
+    NoDup (map pe_val (as_evs (ms_att s))) ->
+    Forall (fun x => hashable (pe_proof x) = true) (as_evs (ms_att s)) ->
+    In e (as_evs (ms_att s)) ->
+    2 * sn_total sn <= 3 * power sn (backers keqb (code_key h) (map ev_of (as_evs (ms_att s))) (ev_key (code_key h) (ev_of e))) ->
+    exists w, as_won (ms_att (end_block keqb h added s sn ord ht)) = Some w /\
+              ev_key (code_key h) w = ev_key (code_key h) (ev_of e) /\
+              ms_pruned (end_block keqb h added s sn ord ht) = false.
+  Proof.
+    intros added s sn ord ht e Ho Hp Hw Hsn Hnd Hh Ie Hq.
+    assert (Hnd' : NoDup (map ev_val (map ev_of (as_evs (ms_att s))))).
+    { rewrite map_map. exact Hnd. }
+    assert (Hb : existsb ev_bad (map ev_of (as_evs (ms_att s))) = false).
+    { clear -Hh. induction (as_evs (ms_att s)) as [|x l IH]; [reflexivity|]. inversion Hh as [|? ? Hx Hl]; subst.
+      cbn [map existsb]. rewrite (IH Hl). unfold hashable in Hx. cbn [ev_of ev_bad].
+      destruct (bytes_to_hash (pe_proof x)); [reflexivity|discriminate]. }
+    destruct (two_thirds_identical_wins keqb (code_key h) Hk ord sn (map ev_of (as_evs (ms_att s))) (ev_of e) Ho Hsn Hnd' Hb
+                (in_map ev_of _ _ Ie) Hq) as (w & Hv & Hkey).
+    exists w. unfold end_block. rewrite Hp, Hw. cbn [att_step]. unfold att_step. rewrite Hw, Hv. cbn [as_won].
+    split; [reflexivity|]. split; [exact Hkey|reflexivity].
+  Qed.
+
+  Theorem pruned_only_without_winner : forall added (s : mod_state) sn ord ht,
+    ms_pruned s = false ->
+    ms_pruned (end_block keqb h added s sn ord ht) = true ->
+    prune_due added ht = true /\ as_won (ms_att (end_block keqb h added s sn ord ht)) = None /\
+    forall w, verify_evidence keqb (code_key h) ord sn (map ev_of (as_evs (ms_att s))) <> Winner w.
+  Proof.
+    intros added s sn ord ht Hp. unfold end_block. rewrite Hp.
+    destruct (as_won (ms_att s)) eqn:W; [congruence|].
+    unfold att_step. rewrite W.
+    destruct (verify_evidence keqb (code_key h) ord sn (map ev_of (as_evs (ms_att s)))) eqn:V;
+      cbn [as_won]; try rewrite W; cbn [ms_pruned ms_att as_won]; try discriminate;
+      intros Hd; (split; [exact Hd|]); (split; [exact W|]); intros w'; discriminate.
+  Qed.
 End History.
+
+Lemma unhashable_refused {K : Type} (keqb : K -> K -> bool) (h : Z -> Z -> K) (s : att_state) (e : pev) :
+  hashable (pe_proof e) = false -> att_step keqb h s (AoSubmit e) = s.
+Proof. intros H. unfold att_step. destruct (as_won s); [reflexivity|]. now rewrite H. Qed.
 
 (** Non-vacuity: three equal validators; 1 answers a, 2 answers b: the run removes nothing; a proof-less
     submission of 3 is refused; 2 corrects itself to a: the next run removes the request with a. *)
